@@ -620,7 +620,7 @@ func c16Run(w *fw.W, b fw.Batch) {
 		sizes := []int{1 << 10, 4 << 10, 16 << 10, 60 << 10, 65400, 65536, 66000, 70 << 10, 128 << 10, 256 << 10}
 		nd := 10
 		if thorough {
-			nd = 60
+			nd = 40
 		}
 		for i := 0; i < nd; i++ {
 			size := sizes[(i+b.Index)%len(sizes)]
@@ -646,9 +646,9 @@ func c16Run(w *fw.W, b fw.Batch) {
 		}
 		return
 	}
-	nd, nsingle, nmixed := 130, 4, 4
+	nd, nsingle, nmixed := 160, 4, 4
 	if thorough {
-		nd, nsingle, nmixed = 1600, 8, 8
+		nd, nsingle, nmixed = 500, 8, 8
 	}
 	for i := 0; i < nd; i++ {
 		d := c16GenDesc(r, v, 1+r.IntN(4), c16GenOpt{})
@@ -730,7 +730,7 @@ func init() {
 		Plan: func(tier fw.Tier, seed int64) []fw.Batch {
 			normal, long := 12, 4
 			if tier == fw.Thorough {
-				normal, long = 56, 8
+				normal, long = 48, 8
 			}
 			var bs []fw.Batch
 			for i := 0; i < normal+long; i++ {
